@@ -40,9 +40,9 @@ fn rnd_target(r: &mut Rng, i: usize) -> Target {
     Target { identifier: format!("srv-{}-{}", i, r.below(100)), address: rnd_sa(r), meta }
 }
 fn rnd_props(r: &mut Rng) -> Vec<ProfileProperty> {
-    // one profile in eight is as heavy as real ones get: three signed properties of about 2.4 KB each (a signed cookie
+    // one profile in fourteen is as heavy as real ones get: three signed properties of about 2.4 KB each (a signed cookie
     // of more than 5 KiB, still below the default frame limit when the client presents it again)
-    if r.chance(1, 8) {
+    if r.chance(1, 14) {
         return (0..3).map(|i| ProfileProperty { name: format!("textures{}", i), value: "dGV4dHVyZXM".repeat(150 + r.below(20) as usize),
                                                signature: Some("c2ln".repeat(150 + r.below(10) as usize)) }).collect();
     }
